@@ -10,9 +10,10 @@ CONSTANTS Refs,        \* set of references <<t, i>>
           Eras         \* eras to enumerate (the laws do not depend on the era; the generated
                        \* transactions of GenUtxoEffects do: "alonzo", "babbage", "conway")
 
-\* (1,1) < (2,0) < (2,1): lexicographic by id then index, not by index first
-Refs3 == {<<1, 1>>, <<2, 0>>, <<2, 1>>}
-Refs4 == {<<1, 1>>, <<2, 0>>, <<2, 1>>, <<3, 0>>}
+\* (1,10) < (2,2) < (2,10) < (2,100): lexicographic by id then by the *numeric* index - not by index
+\* first, and not by the decimal text of the index ("10" < "100" < "2")
+Refs3 == {<<1, 10>>, <<2, 2>>, <<2, 10>>}
+Refs4 == {<<1, 10>>, <<2, 2>>, <<2, 10>>, <<2, 100>>}
 
 SeqsUpTo(S, n) == UNION {[1..k -> S] : k \in 0..n}
 OutsOf(n) == [k \in 1..n |-> 10 + k]
